@@ -26,8 +26,7 @@ type Engine struct {
 	Overlay    map[string][]byte
 	LoadErrors []string
 
-	fnInfoMu sync.Mutex
-	fnInfos  map[*ssa.Function]*fnInfo
+	fnInfoMap sync.Map
 
 	methodCache sync.Map // methodKey -> *ssa.Function
 
@@ -90,8 +89,7 @@ func LoadEngine(repo, harnessDir string) (*Engine, error) {
 	if err != nil {
 		return nil, err
 	}
-	e := &Engine{RepoDir: repo, HarnessDir: harnessDir, Pkgs: map[string]*ssa.Package{}, Overlay: overlay,
-		fnInfos: map[*ssa.Function]*fnInfo{}}
+	e := &Engine{RepoDir: repo, HarnessDir: harnessDir, Pkgs: map[string]*ssa.Package{}, Overlay: overlay}
 	packages.Visit(initial, nil, func(p *packages.Package) {
 		for _, er := range p.Errors {
 			e.LoadErrors = append(e.LoadErrors, er.Error())
@@ -146,10 +144,8 @@ type fnInfo struct {
 }
 
 func (e *Engine) info(fn *ssa.Function) *fnInfo {
-	e.fnInfoMu.Lock()
-	defer e.fnInfoMu.Unlock()
-	if fi, ok := e.fnInfos[fn]; ok {
-		return fi
+	if fi, ok := e.fnInfoMap.Load(fn); ok {
+		return fi.(*fnInfo)
 	}
 	fi := &fnInfo{index: map[ssa.Value]int{}}
 	add := func(v ssa.Value) {
@@ -174,8 +170,8 @@ func (e *Engine) info(fn *ssa.Function) *fnInfo {
 			}
 		}
 	}
-	e.fnInfos[fn] = fi
-	return fi
+	act, _ := e.fnInfoMap.LoadOrStore(fn, fi)
+	return act.(*fnInfo)
 }
 
 func (e *Engine) FindFunc(pkgPath, name string) *ssa.Function {
